@@ -364,6 +364,42 @@ def rule_connect_once(P):
     return r
 
 
+def rule_refs(P):
+    """who may change bufferevent_private.refcnt: one initialisation, the two incref functions, one decrement in bufferevent_decref_and_unlock_.  A second place that decrements "the
+    reference the deferred queue holds" cannot know whether the queue holds one (a pending flag stays set when the callbacks were cleared): the count goes negative and the finalizer
+    runs twice or never."""
+    r = Rule("C19-refs", "K2", "bufferevent_private.refcnt is initialised once, incremented in the incref functions and decremented only in bufferevent_decref_and_unlock_", floor=4)
+    OWN = {"bufferevent_init_common_": ("=",), "bufferevent_incref": ("++",), "bufferevent_incref_and_lock_": ("++",), "bufferevent_decref_and_unlock_": ("--",)}
+    for f in P.all_fns:
+        if not f.file.startswith("bufferevent"):
+            continue
+        sites = []
+        for el in f.elems():
+            for q in walk(el.e):
+                if is_e(q, "incdec") and is_e(strip(q[3]), "fld") and strip(q[3])[2] == "bufferevent_private.refcnt":
+                    sites.append((el, q[1]))
+                elif is_e(q, "asg") and is_e(strip(q[2]), "fld") and strip(q[2])[2] == "bufferevent_private.refcnt":
+                    sites.append((el, q[1]))
+        for b in f.branch_blocks():
+            for q in walk(b.term["cond"]):
+                if is_e(q, "incdec") and is_e(strip(q[3]), "fld") and strip(q[3])[2] == "bufferevent_private.refcnt":
+                    sites.append((None, q[1]))
+                elif is_e(q, "asg") and is_e(strip(q[2]), "fld") and strip(q[2])[2] == "bufferevent_private.refcnt":
+                    sites.append((None, q[1]))
+        seen_ = set()
+        for el, op in sites:
+            k = (f.name, op, el.n if el is not None else "cond")
+            if k in seen_:
+                continue
+            seen_.add(k)
+            ok = f.name in OWN and op in OWN[f.name]
+            r.inst(k, {"fn": f.name, "site": el.where() if el is not None else "%s:%d (condition)" % (f.file, f.line), "operation": op, "owner": ok})
+            if not ok:
+                r.bad("K2:%s:refcnt%s" % (f.name, op), el.where() if el is not None else "%s:%d" % (f.file, f.line), f.name,
+                      "%s applies %s to bufferevent_private.refcnt outside the functions that own the count" % (f.name, op))
+    return r
+
+
 def run(ctx, config):
     P = ctx.prog(UNITS, config)
-    return [rule_runners(P), rule_fresh(P), rule_run(P), rule_free_connect(P), rule_connect_once(P)]
+    return [rule_runners(P), rule_fresh(P), rule_run(P), rule_free_connect(P), rule_connect_once(P), rule_refs(P)]
